@@ -416,4 +416,97 @@ theorem C08_route_when_covered (t : Table) (dst : Ip) (hv : ValidMasks t.routes)
     obtain ⟨r, hr, p, hc⟩ := hex
     exact absurd hc (((C08_default_iff t dst nh).1 hres).2.1 r hr p)
 
+
+/-! ### what "contains" and "prefix length" mean -/
+
+theorem netmask_getLsbD (p i : Nat) (hp : p ≤ 32) (hi : i < 32) :
+    (netmask p).getLsbD i = decide (32 - p ≤ i) := by
+  unfold netmask
+  rw [BitVec.getLsbD_shiftLeft]
+  simp only [hi, decide_true, Bool.true_and, BitVec.getLsbD_allOnes]
+  by_cases h : i < 32 - p
+  · simp [h]; omega
+  · have : i - (32 - p) < 32 := by omega
+    simp [h, this]; omega
+
+/-- `dst in IPv4Network(addr/p, strict=False)` is exactly "the top `p` bits of `dst` and `addr` agree" — host bits
+of a non-canonical `addr` are irrelevant. -/
+theorem C08_inNet_spec (dst addr : Ip) (p : Nat) (hp : p ≤ 32) :
+    inNet dst addr p = true ↔ ∀ i : Nat, i < 32 → 32 - p ≤ i → dst.getLsbD i = addr.getLsbD i := by
+  unfold inNet
+  constructor
+  · intro h i hi hpi
+    have h' : (dst &&& netmask p) = (addr &&& netmask p) := by simpa using h
+    have h2 := congrArg (fun v => v.getLsbD i) h'
+    simp only [BitVec.getLsbD_and, netmask_getLsbD p i hp hi, hpi, decide_true, Bool.and_true] at h2
+    exact h2
+  · intro h
+    have : (dst &&& netmask p) = (addr &&& netmask p) := by
+      apply BitVec.eq_of_getLsbD_eq
+      intro i hi
+      simp only [BitVec.getLsbD_and, netmask_getLsbD p i hp hi]
+      by_cases hpi : 32 - p ≤ i
+      · simp [hpi, h i hi hpi]
+      · simp [hpi]
+    simp [this]
+
+/-- a mask is accepted exactly when it (netmask spelling) or its complement (hostmask spelling) is `p` ones followed
+by zeroes, `p ≤ 32`; the netmask reading wins. -/
+theorem C08_maskPrefix_spec (m : Ip) (p : Nat) (h : maskPrefix m = some p) :
+    p ≤ 32 ∧ (m = netmask p ∨ ~~~m = netmask p) := by
+  unfold maskPrefix at h
+  have key : ∀ (x : Ip) (q : Nat), prefixOfNetmask x = some q → q ≤ 32 ∧ x = netmask q := by
+    intro x q hq
+    unfold prefixOfNetmask at hq
+    have h1 := List.find?_some hq
+    have h2 := List.mem_of_find?_eq_some hq
+    simp only [List.mem_range] at h2
+    exact ⟨by omega, by have := h1; simp only [beq_iff_eq] at this; exact this.symm⟩
+  cases hn : prefixOfNetmask m with
+  | some q =>
+    simp only [hn, Option.some.injEq] at h
+    subst h
+    exact ⟨(key m q hn).1, Or.inl (key m q hn).2⟩
+  | none =>
+    simp only [hn] at h
+    exact ⟨(key _ p h).1, Or.inr (key _ p h).2⟩
+
+/-- every prefix length has its netmask recognised (so `/0 … /32` networks never raise). -/
+theorem C08_maskPrefix_netmask : ∀ p, p < 33 → maskPrefix (netmask p) = some p := by decide
+
+/-! ### non-vacuity: concrete tables exercising every clause -/
+
+def exTable : Table :=
+  { routes := [
+      { addr := 0x0A010000#32, mask := 0xFFFF0000#32, nextHop := 0x01010101#32, metric := 0 },   -- 10.1.0.0/16
+      { addr := 0x0A01024D#32, mask := 0x000000FF#32, nextHop := 0x01010102#32, metric := 5 },   -- 10.1.2.77 hostmask /24
+      { addr := 0x0A010200#32, mask := 0xFFFFFF00#32, nextHop := 0x01010103#32, metric := 5 },   -- 10.1.2.0/24 tie on metric
+      { addr := 0x0A010200#32, mask := 0xFFFFFF00#32, nextHop := 0x02020202#32, metric := 1 } ], -- 10.1.2.0/24 cheaper
+    default := some 0x09090909#32 }
+
+/-- longest prefix, then lowest metric: 10.1.2.3 → entry 3. -/
+example : findBestRoute exTable 0x0A010203#32 =
+    .route 3 { addr := 0x0A010200#32, mask := 0xFFFFFF00#32, nextHop := 0x02020202#32, metric := 1 } := by decide
+def exR0 : Route := { addr := 0x0A010000#32, mask := 0xFFFF0000#32, nextHop := 0x01010101#32, metric := 0 }
+def exR1 : Route := { addr := 0x0A01024D#32, mask := 0x000000FF#32, nextHop := 0x01010102#32, metric := 5 }
+def exR2 : Route := { addr := 0x0A010200#32, mask := 0xFFFFFF00#32, nextHop := 0x01010103#32, metric := 5 }
+
+/-- only the /16 contains 10.1.9.9. -/
+example : findBestRoute exTable 0x0A010909#32 = .route 0 exR0 := by decide
+/-- default route as last resort. -/
+example : findBestRoute exTable 0x0B000001#32 = .default 0x09090909#32 := by decide
+/-- no default: `None`. -/
+example : findBestRoute { exTable with default := none } 0x0B000001#32 = .noRoute := by decide
+/-- full tie (same prefix, same metric): the earlier entry stays, even though its address is non-canonical and its
+mask is spelt as a hostmask. -/
+example : findBestRoute { routes := [exR1, exR2], default := none } 0x0A010203#32 = .route 0 exR1 := by decide
+/-- a non-contiguous mask raises whatever the destination. -/
+example : findBestRoute (addRoute exTable { addr := 0x0A020000#32, mask := 0xFF00FF00#32, nextHop := 0x02020202#32, metric := 0 })
+    0x0B000001#32 = .raised := by decide
+example : ValidMasks exTable.routes := by
+  intro r hr
+  simp only [exTable, List.mem_cons, List.not_mem_nil, or_false] at hr
+  rcases hr with rfl | rfl | rfl | rfl <;> decide
+example : Covers 0x0A010203#32 exR1 24 := by decide
+
 end Primaite.Route
